@@ -95,6 +95,13 @@ def gen_world(rng, profile):
         t["blocks"] = [{"name": "q0", "stmts": g.pstmts(tp, 1, 2)}]
         root = "T"
     scn["root"] = root
+    # pre_randomize of some classes assigns a value to one of the class's non-random fields
+    for cn, cd in classes.items():
+        nr = [f for f in cd["fields"] if not f["rand"] and not f.get("enums")]
+        if cd.get("pre") and nr and r.random() < 0.6:
+            f = r.choice(nr)
+            lo, hi = (-(1 << (f["w"] - 1)), (1 << (f["w"] - 1)) - 1) if f["s"] else (0, (1 << f["w"]) - 1)
+            cd["preset"] = {"field": f["name"], "val": r.randint(lo, hi)}
     # keep the number of random bits enumerable: narrow declared-random scalars beyond 13 bits
     sp = W.scalar_paths(scn)
     ops = []
@@ -189,6 +196,14 @@ def compare_world(scn, k, c, m):
     a, b, st = _compare_flat(S, names, case, c2, m["call"])
     corr += a
     orc += b
+    # post_randomize runs after every field holds its final value
+    if c["outcome"] == "ok":
+        for pth, snap in c.get("post_snaps", []):
+            st["post_snapshots"] = st.get("post_snapshots", 0) + 1
+            diff = {n: (snap[n], c["after"][n]) for n in names if snap.get(n) != c["after"][n]}
+            if diff:
+                of("post_randomize-saw-non-final-values", {"object": pth, "seen_vs_final": diff},
+                   "post_randomize is invoked after every field holds its final value")
     # C03 Spec: fields not random in the call keep their values (success or failure)
     changed = [n for n in names if c["before"][n] != c["after"][n]]
     bad = [n for n in changed if not m["used"].get(n, False)]
@@ -293,7 +308,7 @@ def run(ck, prop, n, profile, extra=None):
     return digests
 
 
-def standard_main(prop, modules, theorems, profile, n_quick, n_thorough, assumptions, rule, keep):
+def standard_main(prop, modules, theorems, profile, n_quick, n_thorough, assumptions, rule, keep, extra_run=None):
     """keep: predicate on failure records (what / signature) selecting what this property judges"""
     tier, seed, replay = common.parse_args(sys.argv[1:])
     ck = common.Check(prop, tier, seed, modules)
@@ -302,12 +317,18 @@ def standard_main(prop, modules, theorems, profile, n_quick, n_thorough, assumpt
     if replay:
         obj = json.load(open(replay))
         case = obj.get("case") or (obj.get("first_disagreement") or {}).get("case")
-        if not isinstance(case, dict) or "classes" not in case:
+        if isinstance(case, dict) and case.get("free") and extra_run is not None:
+            digests = set()
+            extra_run(ck, tier, [case])
+        elif not isinstance(case, dict) or "classes" not in case:
             raise common.InfraError("replay file holds no object-tree scenario")
-        digests = run(ck, prop, 0, profile, extra=[case])
+        else:
+            digests = run(ck, prop, 0, profile, extra=[case])
     else:
         n = n_thorough if tier == "thorough" else n_quick
         digests = run(ck, prop, n, profile)
+        if extra_run is not None:
+            extra_run(ck, tier, None)
     # exceptions escaping randomize() are C02's concern (known finding F33 among them); here they only end the call
     nexc = sum(1 for f in ck.oracle_failures if f["signature"].startswith("internal-exception"))
     ck.oracle_failures[:] = [f for f in ck.oracle_failures if not f["signature"].startswith("internal-exception") and keep(f["signature"])]
@@ -318,19 +339,27 @@ def standard_main(prop, modules, theorems, profile, n_quick, n_thorough, assumpt
     # failing-input search: rerun the disagreeing histories under other random states
     if ck.corr_failures and not ck.oracle_failures and not replay:
         cases = sorted(ck.corr_failures, key=lambda f: len(json.dumps(f["case"], default=str)))[:5]
-        extra = []
+        extra, extra_free = [], []
         rng = random.Random(seed + 23)
         for f in cases:
             for _ in range(25):
                 scn = json.loads(json.dumps(f["case"]))
+                if scn.get("free"):
+                    for c in scn["calls"]:
+                        c["seed"] = rng.randrange(1 << 30)
+                    extra_free.append(scn)
+                    continue
                 for o in scn["ops"]:
                     if o["op"] == "randomize":
                         o["seed"] = rng.randrange(1 << 30)
                 extra.append(scn)
         before = len(ck.corr_failures)
-        run(ck, prop, 0, profile, extra=extra)
+        if extra:
+            run(ck, prop, 0, profile, extra=extra)
+        if extra_free and extra_run is not None:
+            extra_run(ck, tier, extra_free)
         del ck.corr_failures[before:]
         ck.oracle_failures[:] = [f for f in ck.oracle_failures if not f["signature"].startswith("internal-exception") and keep(f["signature"])]
-        ck.cov["failing_input_search_scenarios"] = len(extra)
+        ck.cov["failing_input_search_scenarios"] = len(extra) + len(extra_free)
     rc = ck.finish(obligations=obligations, assumptions=assumptions, theorems_lost=theorems)
     sys.exit(rc)
